@@ -40,7 +40,7 @@ fn lookup(id: &str) -> Option<(RunFn, ReplayFn)>
         "C08" => Some((props::audits::run_c08, props::audits::replay_c08)),
         "C09" => Some((props::realp::run_c09, props::realp::replay_c09)),
         "C17" => Some((props::c17::run, props::c17::replay)),
-        "C18" => Some((props::c18::run, props::c18::replay)),
+        "C18" => Some((props::realp::run_c18, props::realp::replay_c18)),
         "C19" => Some((props::c19::run, props::c19::replay)),
         "C20" => Some((props::realp::run_c20, props::realp::replay_c20)),
         "C10" => Some((props::c10::run, props::c10::replay)),
